@@ -9,6 +9,7 @@ import Pyiga.Proofs.Multipatch
 import Pyiga.Proofs.MultipatchMat
 import Pyiga.Proofs.MultipatchSlice
 import Pyiga.Proofs.MultipatchPhases
+import Pyiga.Proofs.MultipatchSplit
 import Mathlib.Logic.Equiv.Basic
 import Mathlib.Data.Fin.Embedding
 
@@ -349,6 +350,74 @@ theorem assemble_accumulate_rhs (G : Glob) (bp : Nat → Nat → α) (g : Nat) :
   have hi' : i < G.N p := List.mem_range.1 hi
   rw [Glob.patchToGlobal_e]
   by_cases h1 : G.globalIdx p i = g <;> simp [h1, hi']
+
+/-! ### conforming decomposition = undivided domain -/
+
+/-- the restriction of global basis function `g` to patch `p` is the sum of the local functions glued to it
+(`ψ p i` = local basis function `i` of patch `p`, an element of any additive monoid of functions) -/
+def restrictTo {V : Type} [AddCommMonoid V] (G : Glob) (ψ : Nat → Nat → V) (p g : Nat) : V :=
+  ((List.range (G.N p)).map (fun i => if G.globalIdx p i = g then ψ p i else 0)).sum
+
+/-- **split_assembly** ("assembling over a conforming decomposition gives, up to the renumbering, the system of the
+undivided domain"), at the algebraic level: let `ψ p i` be the local basis functions, let the patch forms `a_p` be
+bi-additive, let the patch matrices be `A_p[i,j] = a_p(ψ_i, ψ_j)`.  Then the matrix accumulated by `assemble_system`
+has the entries `Σ_p a_p(φ_g|_p, φ_h|_p)` where `φ_g|_p = Σ_{global(p,i)=g} ψ_{p,i}` is the restriction to patch `p` of
+the global function made of the glued pieces (classes = global functions, `glue_spec`; one 1 per column of `X_p`,
+`p2g_matrix_column`). -/
+theorem split_assembly_entry {V : Type} [AddCommMonoid V] (G : Glob) (ψ : Nat → Nat → V) (a : Nat → V → V → α)
+    (h0l : ∀ p v, a p 0 v = 0) (h0r : ∀ p u, a p u 0 = 0)
+    (hl : ∀ p u u' v, a p (u + u') v = a p u v + a p u' v) (hr : ∀ p u v v', a p u (v + v') = a p u v + a p u v')
+    (Ap : Nat → Mat α) (hn : ∀ p, p < G.P → (Ap p).n = G.N p)
+    (hA : ∀ p i j, (Ap p).e i j = a p (ψ p i) (ψ p j)) (g h : Nat) :
+    (G.assembleA Ap).e g h = ((List.range G.P).map (fun p => a p (restrictTo G ψ p g) (restrictTo G ψ p h))).sum := by
+  rw [assemble_accumulate G Ap hn g h]
+  apply sum_map_congr
+  intro p _
+  unfold restrictTo
+  rw [map_list_sum (fun v => a p _ v) (h0r p _) (fun v v' => hr p _ v v'), List.map_map]
+  apply sum_map_congr
+  intro j _
+  simp only [Function.comp]
+  rw [map_list_sum (fun u => a p u _) (h0l p _) (fun u u' => hl p u u' _), List.map_map]
+  apply sum_map_congr
+  intro i _
+  simp only [Function.comp, hA]
+  by_cases h1 : G.globalIdx p i = g <;> by_cases h2 : G.globalIdx p j = h <;> simp [h1, h2, h0l, h0r]
+
+/-- … hence, if the form of the undivided domain is additive over the decomposition,
+`a(φ_g, φ_h) = Σ_p a_p(φ_g|_p, φ_h|_p)` (hypothesis: the patches partition the domain and the form is an integral),
+the accumulated multipatch matrix **is** the matrix of the undivided domain in the glued numbering. -/
+theorem split_assembly {V : Type} [AddCommMonoid V] (G : Glob) (ψ : Nat → Nat → V) (a : Nat → V → V → α)
+    (h0l : ∀ p v, a p 0 v = 0) (h0r : ∀ p u, a p u 0 = 0)
+    (hl : ∀ p u u' v, a p (u + u') v = a p u v + a p u' v) (hr : ∀ p u v v', a p u (v + v') = a p u v + a p u v')
+    (Ap : Nat → Mat α) (hn : ∀ p, p < G.P → (Ap p).n = G.N p)
+    (hA : ∀ p i j, (Ap p).e i j = a p (ψ p i) (ψ p j))
+    (afull : Nat → Nat → α)
+    (hadd : ∀ g h, afull g h = ((List.range G.P).map (fun p => a p (restrictTo G ψ p g) (restrictTo G ψ p h))).sum)
+    (g h : Nat) : (G.assembleA Ap).e g h = afull g h := by
+  rw [hadd, split_assembly_entry G ψ a h0l h0r hl hr Ap hn hA]
+
+/-- the load vector likewise: `b[g] = Σ_p ℓ_p(φ_g|_p)` for additive functionals `ℓ_p` -/
+theorem split_assembly_rhs {V : Type} [AddCommMonoid V] (G : Glob) (ψ : Nat → Nat → V) (l : Nat → V → α)
+    (h0 : ∀ p, l p 0 = 0) (hadd : ∀ p u u', l p (u + u') = l p u + l p u')
+    (bp : Nat → Nat → α) (hb : ∀ p i, bp p i = l p (ψ p i)) (g : Nat) :
+    (G.assembleB bp) g = ((List.range G.P).map (fun p => l p (restrictTo G ψ p g))).sum := by
+  rw [assemble_accumulate_rhs G bp g]
+  apply sum_map_congr
+  intro p _
+  unfold restrictTo
+  rw [map_list_sum (l p) (h0 p) (hadd p), List.map_map]
+  apply sum_map_congr
+  intro i _
+  simp only [Function.comp, hb]
+  by_cases h1 : G.globalIdx p i = g <;> simp [h1, h0]
+
+/-- non-vacuity: functions = integer vectors on 3 sample points, `a_p(u,v) = Σ_x u(x) v(x)` restricted to the points of
+patch `p`; the hypotheses hold and the accumulated matrix of two glued 2-dof patches is the 3×3 "undivided" Gram matrix -/
+example :
+    let G : Glob := globOf Cfg.repaired 2 (fun _ => 2) [((0,1),(1,0))]
+    let Ap : Nat → Mat Int := fun _ => ⟨2, 2, fun i j => if i = j then 2 else 1⟩
+    (G.assembleA Ap).toLists = [[2, 0, 1], [0, 2, 1], [1, 1, 4]] := by decide
 
 /-- non-vacuity / sanity on the 2×2 complex (repaired object, patch 2, integer coefficients): the
 column sums are 1, `Xᵀ X` is the identity, rows of `X` are unit vectors or zero -/
